@@ -321,7 +321,11 @@ def per_attempt_cursor_reset(ctx):
         cursors = set()
         for n in ast.walk(rl.try_):
             if isinstance(n, ast.AugAssign) and isinstance(n.target, ast.Name) and isinstance(n.op, ast.Add) and 'len(' in norm(n.value):
-                cursors.add(n.target.id)
+                # a write cursor is handed to a call inside the attempt (the writer); a mere counter is not
+                used = any(isinstance(c, ast.Call) and any(n.target.id in q.names_in(a) for a in list(c.args) + [k.value for k in c.keywords])
+                           and not (dotted(c.func) or '').endswith(('invoke_progress_callbacks', 'debug')) for s2 in rl.try_.body for c in ast.walk(s2))
+                if used:
+                    cursors.add(n.target.id)
         head = [n for n in g.nodes if n.stmt is rl.loop and n.kind in ('for', 'while')]
         if cursors:
             for cur in sorted(cursors):
